@@ -78,46 +78,42 @@ func (r *redisStore) SetTokenResponse(ctx context.Context, sessionID string, tok
 	log := r.log.Context(ctx).With("session-id", sessionID)
 	log.Debug("setting token response", "token_response", tokenResponse)
 
-	if err := r.client.HSet(ctx, sessionID, keyIDToken, tokenResponse.IDToken).Err(); err != nil {
-		return err
-	}
-
-	var keysToDelete []string
+	var (
+		values       = []any{keyIDToken, tokenResponse.IDToken}
+		keysToDelete []string
+	)
 
 	if tokenResponse.AccessToken != "" {
-		if err := r.client.HSet(ctx, sessionID, keyAccessToken, tokenResponse.AccessToken).Err(); err != nil {
-			return err
-		}
+		values = append(values, keyAccessToken, tokenResponse.AccessToken)
 	} else {
 		keysToDelete = append(keysToDelete, keyAccessToken)
 	}
 
 	if !tokenResponse.AccessTokenExpiresAt.IsZero() {
-		if err := r.client.HSet(ctx, sessionID, keyAccessTokenExpiry, tokenResponse.AccessTokenExpiresAt).Err(); err != nil {
-			return err
-		}
+		values = append(values, keyAccessTokenExpiry, tokenResponse.AccessTokenExpiresAt)
 	} else {
 		keysToDelete = append(keysToDelete, keyAccessTokenExpiry)
 	}
 
 	if tokenResponse.RefreshToken != "" {
-		if err := r.client.HSet(ctx, sessionID, keyRefreshToken, tokenResponse.RefreshToken).Err(); err != nil {
-			return err
-		}
+		values = append(values, keyRefreshToken, tokenResponse.RefreshToken)
 	} else {
 		keysToDelete = append(keysToDelete, keyRefreshToken)
 	}
 
-	if len(keysToDelete) > 0 {
-		log.Debug("deleting stale keys", "keys", keysToDelete)
-
-		if err := r.client.HDel(ctx, sessionID, keysToDelete...).Err(); err != nil {
-			return err
-		}
-	}
-
+	// Write the whole token response in one transaction. If Redis goes away between individual
+	// commands the session must not be left half-written, e.g. with an access token but without
+	// its expiry, which later checks would take for a token that never expires.
 	now := r.clock.Now()
-	if err := r.client.HSetNX(ctx, sessionID, keyTimeAdded, now).Err(); err != nil {
+	if _, err := r.client.TxPipelined(ctx, func(pipe redis.Pipeliner) error {
+		pipe.HSet(ctx, sessionID, values...)
+		if len(keysToDelete) > 0 {
+			log.Debug("deleting stale keys", "keys", keysToDelete)
+			pipe.HDel(ctx, sessionID, keysToDelete...)
+		}
+		pipe.HSetNX(ctx, sessionID, keyTimeAdded, now)
+		return nil
+	}); err != nil {
 		return err
 	}
 
